@@ -92,3 +92,19 @@ Proof.
   - reflexivity.
   - simpl. left. reflexivity.
 Qed.
+
+(** "Every component that nothing retained refers to is removed" needs the loop to run until a round removes nothing:
+    whatever number of rounds a loop is limited to, a chain of components each referred to by the previous one only
+    defeats it - the limited loop leaves a component nothing refers to, the loop of the code removes them all. *)
+Theorem C15_bounded_loop_refuted : forall b, exists d,
+  (exists c, In c (d_comps (prune_bounded b d)) /\ prunable (c_kind c) = true /\
+             ~ In (comp_ref c) (find_component_refs (prune_bounded b d)))
+  /\ option_map comp_keys (prune d) = Some [].
+Proof. exact prune_bounded_refuted. Qed.
+Print Assumptions C15_bounded_loop_refuted.
+
+Example C15_chain_of_13_and_10_rounds :
+  comp_keys (prune_bounded 10 (chain_doc 0 13)) =
+    ["#/components/schemas/Nxxxxxxxxxx"; "#/components/schemas/Nxxxxxxxxxxx"; "#/components/schemas/Nxxxxxxxxxxxx"]%string
+  /\ option_map comp_keys (prune (chain_doc 0 13)) = Some [].
+Proof. vm_compute. split; reflexivity. Qed.
